@@ -209,3 +209,225 @@ Print Assumptions C20_proto_reexport_any_hash_order.
 Print Assumptions C20_lookup_order_irrelevant.
 Print Assumptions C20_conversion_sites_covered.
 Print Assumptions C20_sort_by_truncated_key_refuted.
+
+(** * The raw -> LEF exporter (LefExporter::export; model Raw/RawLefExport.v, proofs Raw/RawLefExport_proofs.v)
+
+    [LX.export_with v ord L] transcribes lef.rs with the visiting order of the two hash maps (`Abstract.blockages`,
+    `AbstractPort.shapes`) as the argument [ord], exactly as [RawProto.to_proto_with]; the code of the tree is
+    [LX.export_gen v] = [LX.export_with v RawProto.sorted_by_layer] (by definition).  [v] is the variant of
+    `export_point`: [LX.original] = the code as found (`LefDecimal::from(point.x)`: raw units written as they are),
+    [LX.repaired] = the proposed change that writes microns; every statement below covers both. *)
+From L21 Require Raw.RawLefDec Raw.RawLefSpec Raw.RawLef_proofs Raw.RawLefExport Raw.RawLefExport_proofs.
+Module LX := Raw.RawLefExport.
+Module LXP := Raw.RawLefExport_proofs.
+Module LT := Raw.RawLefTypes.
+
+(** libraries equal up to the listing order of each abstract's blockages map and each port's shapes map export
+    to the same LefLibrary (or the same error, or both panic) *)
+Theorem C20_lef_export_order_independent :
+  forall v L1 L2, lib_maps_permuted L1 L2 -> LX.export_gen v L1 = LX.export_gen v L2.
+Proof. exact LXP.lef_export_order_independent. Qed.
+
+(** the hash map yields its entries in an arbitrary order [h], the code sorts what it gets *)
+Theorem C20_lef_export_any_hash_order :
+  forall v h1 h2 L, perm_oracle h1 -> perm_oracle h2 -> lib_maps_wf L ->
+    LX.export_with v (fun m => RawProto.sorted_by_layer (h1 m)) L =
+    LX.export_with v (fun m => RawProto.sorted_by_layer (h2 m)) L.
+Proof. exact LXP.lef_export_any_hash_order. Qed.
+
+(** the exporter iterating in map order -- the code before /repo commit 4604246 -- is not deterministic:
+    one port and the obstructions on two named layers, both runs succeed, the libraries differ *)
+Theorem C20_lef_export_map_order_refuted :
+  forall v, exists L1 L2 X1 X2, lib_maps_permuted L1 L2 /\
+    LX.export_with v (fun m => m) L1 = Ok X1 /\ LX.export_with v (fun m => m) L2 = Ok X2 /\ X1 <> X2.
+Proof. exact LXP.lef_export_map_order_refuted. Qed.
+
+(** the exporter reads the units, the layer table and the abstracts in the order of the cell list; cell names,
+    cells without abstract and layouts (elements, instances) are never looked at *)
+Theorem C20_lef_export_reads_abstracts_only :
+  forall v ord L1 L2, lib_units L1 = lib_units L2 -> lib_layers L1 = lib_layers L2 ->
+    LXP.abstracts_of (lib_cells L1) = LXP.abstracts_of (lib_cells L2) -> LX.export_with v ord L1 = LX.export_with v ord L2.
+Proof. exact LXP.lef_export_reads_abstracts_only. Qed.
+
+(** ** LEF -> raw -> LEF (model of the importer: Raw/RawLef.v, property C16).
+    The importer builds the hash maps; what it returns has maps with distinct keys, so the re-export is the same
+    whatever order those maps are iterated in: *)
+Theorem C20_lef_reexport_any_hash_order :
+  forall v h lib L0 r, Forall LT.lmacro_wf (LT.lib_macros lib) -> RawLef_proofs.layers0_wf L0 -> perm_oracle h ->
+    RawLef.import lib L0 = Ok r ->
+    LX.export_with v (fun m => RawProto.sorted_by_layer (h m)) (LX.raw_lib_of_import r) = LX.export_gen v (LX.raw_lib_of_import r).
+Proof. exact LXP.lef_reexport_any_hash_order. Qed.
+
+(** What comes back.  [LXP.macro_back v L' m m'] (Raw/RawLefExport_proofs.v, section 3): the macro [m'] has the
+    name of [m], NO SIZE, one pin per pin of [m], in order, with the same name and exactly ONE port; the LAYER
+    statements of that port ([LXP.lgs_back], likewise for the obstructions) are: one statement per layer NAME used
+    anywhere in the pin's ports, the same set of names, in ascending order of the layer keys of the importer's
+    final table [L'] (the order in which the names were first registered, not the order of the LEF text), without
+    WIDTH / SPACING / EXCEPTPGNET / vias; under each name the rectangles and polygons written under that name in
+    any port of the pin, in order, one for one ([LXP.geom_back]: same kind, same number of points), every
+    coordinate related by [LXP.coord_back v d d']: the LEF decimal [d] is a whole number [n] of raw units
+    (value(d) * 10000 = n) and [d'] is what the exporter writes for [n].
+    The export succeeding is a hypothesis: it does exactly when the library has no PATH (next theorem). *)
+Theorem C20_lef_import_export_coordinates :
+  forall v lib L0 cells L' X,
+    Forall LT.lmacro_wf (LT.lib_macros lib) -> RawLef_proofs.layers0_wf L0 ->
+    RawLef.import lib L0 = Ok (cells, L') -> LX.export_gen v (LX.raw_lib_of_import (cells, L')) = Ok X ->
+    LX.xl_dbu X = 10000 /\ LT.lib_case_off (LX.xl_lib X) = false /\
+    Forall2 (LXP.macro_back v L') (LT.lib_macros lib) (LT.lib_macros (LX.xl_lib X)).
+Proof. exact LXP.lef_import_export_coordinates. Qed.
+
+(** the decimal VALUES: the exporter as found gives back every coordinate multiplied by 10000 (the number of
+    Angstrom in the LEF number of microns, written as a LEF number of microns, with scale 0); the repaired exporter
+    gives back the same value ([dec_eq]), always written with 4 decimals (the scale of the LEF text is not kept) *)
+Theorem C20_lef_coord_back_original :
+  forall d d', LXP.coord_back LX.original d d' ->
+    RawLefDec.dscale d' = 0%nat /\ RawLefDec.dec_num d' * RawLefDec.pow10 (RawLefDec.dscale d) = RawLefDec.dec_num d * 10000.
+Proof. exact LXP.coord_back_original. Qed.
+
+Theorem C20_lef_coord_back_repaired :
+  forall d d', LXP.coord_back LX.repaired d d' -> RawLefDec.dscale d' = 4%nat /\ RawLefDec.dec_eq d d'.
+Proof. exact LXP.coord_back_repaired. Qed.
+
+(** so for the code as found "LEF -> raw -> LEF gives back the same decimal values" is refuted: 1.50 comes back 15000 *)
+Theorem C20_lef_import_export_values_orig_refuted :
+  exists d d', RawLefDec.dec_wf d /\ LXP.coord_back LX.original d d' /\ ~ RawLefDec.dec_eq d d'.
+Proof. exact LXP.coord_back_original_not_value. Qed.
+
+(** one coordinate the other way, raw -> LEF -> raw: the repaired exporter's decimal imports to the integer it came
+    from; the decimal of the exporter as found imports to 10000 times that *)
+Theorem C20_lef_export_import_dist :
+  (forall n, RawLefDec.in_isize n = true -> RawLef.import_dist (LX.export_dist LX.repaired Angstrom n) = Ok n) /\
+  (forall u n, RawLefDec.in_isize n = true -> RawLefDec.in_isize (n * 10000) = true ->
+     RawLef.import_dist (LX.export_dist LX.original u n) = Ok (n * 10000)).
+Proof. exact (conj LXP.import_export_dist_repaired LXP.import_export_dist_original). Qed.
+
+(** on the importer's image the exporter never returns an error: it succeeds exactly when no LAYER statement of the
+    library holds a PATH, and panics (`unimplemented!("LefExporter::PATH")`) otherwise *)
+Theorem C20_lef_reexport_outcome :
+  forall v lib L0 cells L',
+    Forall LT.lmacro_wf (LT.lib_macros lib) -> RawLef_proofs.layers0_wf L0 -> RawLef.import lib L0 = Ok (cells, L') ->
+    ((exists X, LX.export_gen v (LX.raw_lib_of_import (cells, L')) = Ok X) \/ LX.export_gen v (LX.raw_lib_of_import (cells, L')) = Panic) /\
+    ((exists X, LX.export_gen v (LX.raw_lib_of_import (cells, L')) = Ok X) <-> Forall LXP.macro_no_path (LT.lib_macros lib)).
+Proof. exact LXP.lef_reexport_outcome. Qed.
+
+(** raw -> LEF -> raw does not exist: the exporter writes no SIZE (it does not export the abstract's outline), and
+    the importer refuses a macro without SIZE; every exported library that has a macro fails to import *)
+Theorem C20_lef_export_reimport_no_size :
+  forall v ord L X L0, LX.export_with v ord L = Ok X -> LT.lib_macros (LX.xl_lib X) <> [] ->
+    RawLef.import (LX.xl_lib X) L0 = Err LT.ENoSize.
+Proof. exact LXP.lef_export_reimport_no_size. Qed.
+
+(** ** Inputs the exporter cannot express (observations, pinned as computations of the model; each is also a
+    fixed case of the correspondence run) *)
+Example C20_lef_export_units :
+  LX.export_units Micro = Err LX.XUnits /\ LX.export_units Nano = Ok 1000 /\
+  LX.export_units Angstrom = Ok 10000 /\ LX.export_units Pico = Err LX.XUnits.
+Proof. vm_compute. repeat split; reflexivity. Qed.
+
+Definition lx_lib (u : units) (names : list (option string)) (cells : list cell) : library :=
+  mklib "lib" u (map (fun nm => mklayer 5 nm []) names) cells.
+Definition lx_abs (m blk : shapemap) : cell :=
+  mkcell "c" (Some (mkabstract "c" [mkpt 0 0; mkpt 100 0; mkpt 100 100; mkpt 0 100] [mkabsport "a" m] blk)) None.
+Definition lx_path : shape := Path [mkpt 0 0; mkpt 5 0] 2.
+
+Example C20_lef_export_inexpressible :
+  (* a shape on a layer without a name, or on a key that is in no slot: an error *)
+  LX.export_orig (lx_lib Nano [Some "met1"; None]%string [lx_abs [(1%nat, [w_rect 0])] []]) = Err LX.XNoName /\
+  LX.export_orig (lx_lib Nano [Some "met1"]%string [lx_abs [(7%nat, [])] []]) = Err LX.XNoName /\
+  (* a path: a panic; the layer name is looked up first, so an unnamed layer wins; the units are checked before everything *)
+  LX.export_orig (lx_lib Nano [Some "met1"]%string [lx_abs [(0%nat, [lx_path])] []]) = Panic /\
+  LX.export_orig (lx_lib Nano [None] [lx_abs [(0%nat, [lx_path])] []]) = Err LX.XNoName /\
+  LX.export_orig (lx_lib Pico [None] [lx_abs [(0%nat, [lx_path])] []]) = Err LX.XUnits /\
+  (* cells without abstract (with or without a layout, instances included) are skipped silently *)
+  LX.export_orig (lx_lib Angstrom [None]
+     [mkcell "a" None None;
+      mkcell "b" None (Some (mklayout "b" [mkinst "i" 0 (mkpt 1 2) false None] [mkelem None 0 Drawing lx_path] []))]) =
+    Ok (LX.mkxlef 10000 (LT.mkllib false [])).
+Proof. vm_compute. repeat split; reflexivity. Qed.
+
+(** ** Non-vacuity.  The two-layer library of the refutation, held in two orders: the libraries differ, the
+    exported LefLibrary is the same and lists met1 before met2, in the pin and in the obstructions *)
+Example C20_lef_export_nonvacuous :
+  lib_maps_permuted (LXP.wl_lib w_m12) (LXP.wl_lib w_m21) /\ LXP.wl_lib w_m12 <> LXP.wl_lib w_m21 /\
+  exists X, LX.export_orig (LXP.wl_lib w_m12) = Ok X /\ LX.export_orig (LXP.wl_lib w_m21) = Ok X /\
+            map (fun m => (map (fun p => map (map LT.lg_layer) (LT.pin_ports p)) (LT.m_pins m), map LT.lg_layer (LT.m_obs m)))
+                (LT.lib_macros (LX.xl_lib X)) = [([[["met1"; "met2"]]], ["met1"; "met2"])]%string.
+Proof.
+  split; [exact LXP.wl_permuted|]. split; [discriminate|].
+  eexists. split; [vm_compute; reflexivity|]. split; vm_compute; reflexivity.
+Qed.
+
+(** LEF -> raw -> LEF on a macro with two pins (one with two ports that share a layer), obstructions, rectangles
+    and a polygon, decimals with trailing zeros and a negative value: hypotheses of
+    [C20_lef_import_export_coordinates] hold, the import and both exports succeed; pin A's two ports come back as
+    one port with met2 (registered first) before met1; 1.50 comes back as 15000 (as found) / 1.5000 (repaired) *)
+Definition lx_d (neg : bool) (m : Z) (s : nat) : RawLefDec.dec := RawLefDec.mkdec neg m s.
+Definition lx_p (x y : RawLefDec.dec) : LT.lpoint := LT.mklpoint x y.
+Definition lx_lg1 : LT.llayergeoms :=
+  LT.mkllg "met1" [LT.LShape (LT.LRect (lx_p (lx_d false 150 2) (lx_d false 2 0)) (lx_p (lx_d false 3000 3) (lx_d true 5 1)))]
+           0 false None None.
+Definition lx_lg2 : LT.llayergeoms :=
+  LT.mkllg "met2" [LT.LShape (LT.LPolygon [lx_p (lx_d false 0 0) (lx_d false 0 2); lx_p (lx_d false 1 0) (lx_d false 0 0);
+                                           lx_p (lx_d false 1 0) (lx_d false 10 1)])]
+           0 false None (Some (lx_d false 140 3)).
+Definition lx_macro : LT.lmacro :=
+  LT.mklmacro "inv" (Some (lx_d false 150 2, lx_d false 2 0))
+              [LT.mklpin "A" [[lx_lg2]; [lx_lg1; lx_lg2]]; LT.mklpin "Y" [[lx_lg1]]] [lx_lg1; lx_lg2].
+Definition lx_leflib : LT.llib := LT.mkllib false [lx_macro].
+Definition lx_pin_A (v : LX.xvariant) (X : LX.xlef) : list (list (string * list LT.lgeom)) :=
+  match LT.lib_macros (LX.xl_lib X) with
+  | m :: _ => match LT.m_pins m with
+              | p :: _ => map (map (fun lg => (LT.lg_layer lg, LT.lg_geoms lg))) (LT.pin_ports p)
+              | [] => []
+              end
+  | [] => []
+  end.
+Definition lx_rect_back (d : Z -> RawLefDec.dec) : LT.lgeom :=
+  LT.LShape (LT.LRect (lx_p (d 15000) (d 20000)) (lx_p (d 30000) (d (-5000)))).
+Definition lx_poly_back (d : Z -> RawLefDec.dec) : LT.lgeom :=
+  LT.LShape (LT.LPolygon [lx_p (d 0) (d 0); lx_p (d 10000) (d 0); lx_p (d 10000) (d 10000)]).
+
+Example C20_lef_import_export_nonvacuous :
+  exists r, RawLef.import lx_leflib None = Ok r /\
+    (exists X, LX.export_orig (LX.raw_lib_of_import r) = Ok X /\
+       lx_pin_A LX.original X = [[("met2", [lx_poly_back LX.dec_of_int; lx_poly_back LX.dec_of_int]); ("met1", [lx_rect_back LX.dec_of_int])]]%string) /\
+    (exists X, LX.export (LX.raw_lib_of_import r) = Ok X /\
+       lx_pin_A LX.repaired X = [[("met2", [lx_poly_back (fun n => LX.dec_new n 4); lx_poly_back (fun n => LX.dec_new n 4)]);
+                                  ("met1", [lx_rect_back (fun n => LX.dec_new n 4)])]]%string).
+Proof.
+  eexists. split; [vm_compute; reflexivity|]. split; eexists; (split; [vm_compute; reflexivity|vm_compute; reflexivity]).
+Qed.
+
+Example C20_lef_import_export_nonvacuous_wf : Forall LT.lmacro_wf (LT.lib_macros lx_leflib) /\ RawLef_proofs.layers0_wf None.
+Proof.
+  split; [|exact I]. constructor; [|constructor].
+  assert (Hd : forall n m s, 0 <= m < RawLefDec.two96 -> (s <= 28)%nat -> RawLefDec.dec_wf (lx_d n m s)) by (intros; split; assumption).
+  assert (H96 : RawLefDec.two96 = 79228162514264337593543950336) by reflexivity.
+  unfold LT.lmacro_wf, LT.lpin_wf, LT.llg_wf, lx_macro. cbn.
+  repeat match goal with
+         | |- _ /\ _ => split
+         | |- Forall _ _ => constructor
+         | |- forall _, _ => intros
+         | H : Some _ = Some _ |- _ => injection H as <-
+         | H : (_, _) = (_, _) |- _ => injection H as <- <-
+         | H : None = Some _ |- _ => discriminate H
+         | H : LT.lg_width _ = Some _ |- _ => cbn in H
+         | H : _ = ?x |- RawLefDec.dec_wf ?x => rewrite <- H
+         | |- RawLefDec.dec_wf _ => apply Hd; [rewrite H96; Lia.lia|Lia.lia]
+         | |- LT.lgeom_wf _ => cbn
+         | |- LT.lpoint_wf _ => split
+         end.
+Qed.
+
+Print Assumptions C20_lef_export_order_independent.
+Print Assumptions C20_lef_export_any_hash_order.
+Print Assumptions C20_lef_export_map_order_refuted.
+Print Assumptions C20_lef_export_reads_abstracts_only.
+Print Assumptions C20_lef_reexport_any_hash_order.
+Print Assumptions C20_lef_import_export_coordinates.
+Print Assumptions C20_lef_coord_back_original.
+Print Assumptions C20_lef_coord_back_repaired.
+Print Assumptions C20_lef_import_export_values_orig_refuted.
+Print Assumptions C20_lef_export_import_dist.
+Print Assumptions C20_lef_reexport_outcome.
+Print Assumptions C20_lef_export_reimport_no_size.
